@@ -1,3 +1,4 @@
 pub mod expand;
 pub mod fnmatch;
+pub mod glob;
 pub mod interp;
